@@ -1384,14 +1384,19 @@ class WriterTranslator:
     def flag_arm_masks(self, ft, opt, inner_t, st):
         """mask of option member `opt` of synthesised flag struct `ft`: an int, or {variant: mask} for an else-if group"""
         home = self.type_home(st["ctx"], ft, st["path"])
-        src = self.ix.src(home)
+        full = self.ix.src(home)
+        # only the impl blocks of THIS synthesised flag struct (a file may hold several with equally named members)
+        src = ""
+        for im in re.finditer(r"(?m)^impl " + re.escape(ft) + r" \{\n", full):
+            end = full.find("\n}\n", im.end())
+            src += full[im.start():end + 3]
         m = re.search(r"pub fn set_" + re.escape(opt) + r"\(mut self(?:, \w+: [\w:]+)?\) -> Self \{\s*self\.inner \|= (\w+)::(\w+);", src)
         if m:
             _, consts = self.flag_consts_raw(st["ctx"], m.group(1), home)
             return consts.get(m.group(2))
         m = re.search(r"pub fn set_" + re.escape(opt) + r"\(mut self, \w+: ([\w:]+)\) -> Self \{\s*self\.inner \|= \w+\.as_int\(\);", src)
         if m:
-            tab = as_int_table(src, inner_t)
+            tab = as_int_table(full, inner_t)
             if tab:
                 return dict(tab[1])
         return None
